@@ -219,13 +219,16 @@ def importDeps : List Str → EncSt → EncSt
       let (st2, idx) := st1.emit (.import d .instance)
       importDeps ds { st2 with instances := amInsert st2.instances d idx }
 
-/-- `CompositionGraphEncoder::import`; `cn` = the aggregator's canonical naming (a `use`d
-    interface that was merged into a higher version is imported under that version's name) -/
+/-- an import under the interface's own name, or a semver-compatible version of it, is *the*
+    import of that interface (`provides_interface`) -/
+def providesIface (name i : Str) : Bool := i == name || compat i name
+
+/-- `CompositionGraphEncoder::import`; `cn` = the naming applied to dependency ids -/
 def importItem (cn : Str → Str) (st : EncSt) (name : Str) (ty : ItemTy) : EncSt × Nat :=
   let reuse : Option Nat :=
     if ty.kind = .instance then
       match ty.iface with
-      | some id => amGet st.instances id
+      | some i => if providesIface name i then amGet st.instances i else none
       | none => none
     else none
   match reuse with
@@ -237,7 +240,7 @@ def importItem (cn : Str → Str) (st : EncSt) (name : Str) (ty : ItemTy) : EncS
     let st3 :=
       if ty.kind = .instance then
         match ty.iface with
-        | some id => { st2 with instances := amInsert st2.instances id idx }
+        | some i => if providesIface name i then { st2 with instances := amInsert st2.instances i idx } else st2
         | none => st2
       else st2
     (st3, idx)
@@ -398,14 +401,15 @@ def encNodes (g : GraphVal) (o : Opts) : List Nat → EncSt → Res EncSt
     | .error e => .error e
     | .panic s => .panic s
 
-/-- the exports loop (the defining name of a definition was exported by `definition`) -/
+/-- the exports loop: every entry that points to a definition is skipped (a definition is
+    exported by `definition`, under `Node.export` — the *last* name `export()` gave it) -/
 def encExports (g : GraphVal) : List (Str × Nat) → EncSt → Res EncSt
   | [], st => .ok st
   | (name, id) :: rest, st =>
     match g.node? id with
     | none => .panic "export of a dead node"
     | some n =>
-      if n.isDefinition ∧ n.exportName = some name then encExports g rest st
+      if n.isDefinition then encExports g rest st
       else
         match natGet st.nodeIdx id with
         | none => .panic "node_indexes[export]"
